@@ -291,9 +291,9 @@ pub const W_PREFIX: OpWeights =
 pub const W_CASE: OpWeights =
     OpWeights { fresh: 6, prefix: 2, affix: 4, replace: 2, repeat: 1, casevar: 8, dup: 1, empty: 1 };
 
-fn op_strategy(w: OpWeights, max_rep: u8) -> impl Strategy<Value = Op> {
+fn op_strategy(w: OpWeights, max_rep: u8, max_word: usize) -> impl Strategy<Value = Op> {
     prop_oneof![
-        w.fresh => word_strategy(5).prop_map(Op::Fresh),
+        w.fresh => word_strategy(max_word).prop_map(Op::Fresh),
         w.prefix => (any::<u16>(), any::<u16>()).prop_map(|(i, k)| Op::PrefixOf(i, k)),
         w.affix => (any::<u16>(), word_strategy(3)).prop_map(|(i, w)| Op::Append(i, w)),
         w.affix => (any::<u16>(), word_strategy(3)).prop_map(|(i, w)| Op::Prepend(i, w)),
@@ -319,6 +319,20 @@ pub fn program_strategy(
     max_ops: usize,
     max_rep: u8,
 ) -> BoxedStrategy<Program> {
+    program_strategy_sized(pools, with_any, w, 1, max_ops, max_rep, 5)
+}
+
+/// As `program_strategy`, with explicit bounds on the number of derivation steps and on the
+/// length of fresh words (used by the "large" sub-checks: more and longer test cases).
+pub fn program_strategy_sized(
+    pools: &[&'static str],
+    with_any: bool,
+    w: OpWeights,
+    min_ops: usize,
+    max_ops: usize,
+    max_rep: u8,
+    max_word: usize,
+) -> BoxedStrategy<Program> {
     let ids: Vec<usize> = pools.iter().map(|n| pool_index(n)).collect();
     let pool = if with_any {
         prop_oneof![9 => proptest::sample::select(ids), 1 => Just(POOL_ANY)].boxed()
@@ -329,7 +343,7 @@ pub fn program_strategy(
         pool,
         vec(any::<char>(), 6),
         prop_oneof![3 => any::<[u16; 3]>().prop_map(Some), 2 => Just(None)],
-        vec(op_strategy(w, max_rep), 1..=max_ops),
+        vec(op_strategy(w, max_rep, max_word), min_ops..=max_ops),
     )
         .prop_map(|(pool, any, sub, ops)| Program { pool, any, sub, ops })
         .boxed()
